@@ -307,8 +307,146 @@ def _same(c, model, impl, spec_ok):
     return False
 
 
-def evaluate(ctx, cases):
-    _evaluate(ctx, cases, same=_same)
+class _Intercept:
+    """Forwards everything to the context but holds the spec failures back so that they can be shrunk first."""
+
+    def __init__(self, ctx):
+        object.__setattr__(self, '_ctx', ctx)
+        object.__setattr__(self, 'held', [])
+
+    def __getattr__(self, k):
+        return getattr(self._ctx, k)
+
+    def __setattr__(self, k, v):
+        setattr(self._ctx, k, v)
+
+    def spec_fail(self, sig, case, detail):
+        self.held.append((sig, case, detail))
+
+
+def evaluate(ctx, cases, shrink=True):
+    if not shrink or isinstance(ctx, Sub):
+        _evaluate(ctx, cases, same=_same)
+        return
+    ic = _Intercept(ctx)
+    _evaluate(ic, cases, same=_same)
+    seen = set()
+    for sig, case, detail in ic.held:
+        key = json.dumps(sig, sort_keys=True, default=str)
+        if key not in seen and len(seen) < 3 and isinstance(case, dict) and 'graph' in case and sig.get('entry') != 'crash':
+            seen.add(key)
+            try:
+                small = shrink_case(ctx, sig, case)
+            except ToolFailure:
+                raise
+            except Exception as e:  # the shrinker must never hide a failure
+                ctx.note('shrinker failed: %r' % (e,))
+                small = None
+            if small is not None:
+                case2, detail2 = small
+                detail2 = dict(detail2)
+                detail2['shrunk_from'] = {'n': case['graph']['shape'][0], 'nnz': len(case['graph']['indices']),
+                                          'name': case.get('name')}
+                ctx.spec_fail(sig, case2, detail2)
+                continue
+        ctx.spec_fail(sig, case, detail)
+
+
+# ---------------------------------------------------------------------------------------------
+# shrinking a failing input (greedy: drop nodes, then edges, re-evaluating the Lean specification on the
+# implementation's output for every candidate of a round in one batch)
+# ---------------------------------------------------------------------------------------------
+def _sub_desc(case, a, tag):
+    d = dict(case)
+    d['graph'] = _gdesc(a)
+    d['name'] = (case.get('name') or '') + tag
+    return d
+
+
+def _spec_only_cases(ctx, descs):
+    out = StreamList()
+    for i, d in enumerate(descs):
+        cs = [c for c in _cases_of_desc(ctx, d) if c.spec and c.sig.get('entry') == d.get('_entry')]
+        if d.get('_par') is not None:
+            cs = [c for c in cs if c.sig.get('parallelize') == d['_par']]
+        for c in cs:
+            c.run = None
+            c.key = ('shrink', i) + tuple(c.key)
+        out += cs
+    return out
+
+
+def shrink_case(ctx, sig, case, budget_s=45.0, max_rounds=30):
+    import time as _time
+    t0 = _time.time()
+    if case.get('f') not in ('count_triangles', 'count_cliques', 'get_core_decomposition',
+                             'get_clustering_coefficient', 'all'):
+        return None
+    base = dict(case)
+    base['_entry'] = sig.get('entry')
+    base['_par'] = sig.get('parallelize')
+    fmap = {'count_triangles': 'count_triangles', 'count_cliques': 'count_cliques',
+            'get_core_decomposition': 'get_core_decomposition',
+            'get_clustering_coefficient': 'get_clustering_coefficient'}
+    if base['_entry'] in fmap:
+        base['f'] = fmap[base['_entry']]
+    cur = _from_desc(case['graph'])
+    cur = sparse.csr_matrix(cur).astype(float)
+    cur.sort_indices()
+    best = None
+    rng = ctx.rng
+    for rnd in range(max_rounds):
+        if _time.time() - t0 > budget_s:
+            break
+        n = cur.shape[0]
+        cands = []
+        if n > 1:
+            keep_sets = [[v for v in range(n) if v != u] for u in range(n)]
+            for frac in (2, 3):
+                if n >= 2 * frac:
+                    for _ in range(3):
+                        keep_sets.append(sorted(rng.sample(range(n), n - n // frac)))
+            for ks in keep_sets:
+                cands.append(sparse.csr_matrix(cur[ks][:, ks]))
+        und = sparse.triu(cur, 1).tocoo()
+        edges = list(zip(und.row.tolist(), und.col.tolist()))
+        if len(cands) == 0 or rnd % 2 == 1 or n <= 6:
+            for (i, j) in edges[:200]:
+                b = cur.tolil(copy=True)
+                b[i, j] = 0
+                b[j, i] = 0
+                b = sparse.csr_matrix(b)
+                b.eliminate_zeros()
+                cands.append(b)
+        if not cands:
+            break
+        descs = [_sub_desc(base, b, ':shrunk') for b in cands]
+        sub = Sub(ctx)
+        sub.overlay_root = ctx.overlay_root
+        sub.dist = {}
+        cases, crash = in_child(sub, lambda: _spec_only_cases(sub, descs))
+        _evaluate(sub, cases, same=_same)
+        failing = {}
+        for f in sub.spec_failures:
+            # recover the candidate index from the description
+            for i, d in enumerate(descs):
+                if f['case'] is not None and f['case'].get('graph') == d['graph']:
+                    failing.setdefault(i, f)
+                    break
+        if not failing:
+            if len(cands) > n and rnd % 2 == 1:
+                break       # neither a node nor an edge can be dropped
+            if n <= 6 or rnd % 2 == 1:
+                break
+            continue
+        # smallest failing candidate: fewest nodes, then fewest entries
+        i = min(failing, key=lambda t: (cands[t].shape[0], cands[t].nnz))
+        cur = cands[i]
+        cur.sort_indices()
+        f = failing[i]
+        d = {k: v for k, v in f['case'].items() if not k.startswith('_')}
+        best = (d, f['detail'])
+    return best
 
 
 # ---------------------------------------------------------------------------------------------
